@@ -427,3 +427,46 @@ def client_monitor(case, ob):
                 if not (declared and mine and toks[0] == b"S2M_AUTH_ACK" and b"succeeded=false" in toks):
                     v.append(("C09", f"challenge reported although the reply was {line[:90]!r}", j))
     return v
+
+
+# ------------------------------------------------------------------ C10 on the client's read path
+def opacity_cases(r, n):
+    """replies whose payload bytes look like protocol lines (PINGs, acks for other requests), with every combination of
+    the verdict flags; a second call follows on the same link"""
+    cases = []
+    for _ in range(n):
+        body = r.choice([b"PING id=77\nPING id=78\n", b"S2M_FORWARD_EVENT_ACK id=@ID2@\nPING id=5\n", b"PING id=9\n" + bytes(r.randrange(256) for _ in range(20)),
+                         b"\n\n\nPING id=3\n", bytes(r.randrange(256) for _ in range(40))])
+        valid = r.random() < 0.5
+        reply = sl.frame("S2M_FORWARD_BROADCAST_PAYLOAD_ACK", [("id", "@ID@"), ("valid", valid), ("altered_payload", True), ("altered_payload_length", len(body))], body)
+        calls = [{"call": "fbp", "reply": reply.hex(), "close": False, "payload": b"orig".hex(), "from": b"alice@localhost".hex(), "channel": b"c1".hex(),
+                  "opaque_body": body.hex(), "valid": valid},
+                 {"call": "event", "reply": sl.frame("S2M_FORWARD_EVENT_ACK", [("id", "@ID@")]).hex(), "close": False, "kind": "MEMBER_LEFT",
+                  "channel": b"!c1@localhost".hex(), "nid": b"alice@localhost".hex(), "owner": False}]
+        cases.append({"cfg": {"client_timeout_ms": 50, "backoff_initial_ms": 1, "backoff_max_ms": 2}, "ops": list(OPS),
+                      "handshake": handshake_bytes(list(OPS)).hex(), "calls": calls})
+    return cases
+
+
+def opacity_monitor(case, ob):
+    """payload bytes are opaque: whatever they look like, the client answers none of them, keeps the link, and hands an
+    accepted alteration over byte for byte"""
+    v = []
+    if "calls" not in ob:
+        return [("setup error " + str(ob)[:200], 0)]
+    c0, o0 = case["calls"][0], ob["calls"][0]
+    body = bytes.fromhex(c0["opaque_body"])
+    for j, o in enumerate(ob["calls"]):
+        for f in o["seen"]:
+            if "handshake" in f or "undecodable" in f:
+                continue
+            if sl.frame_name(f) not in ("S2M_FORWARD_BROADCAST_PAYLOAD", "S2M_FORWARD_EVENT"):
+                v.append((f"the client wrote a {sl.frame_name(f)} frame although it had only been sent a reply whose PAYLOAD contains such lines", j))
+        if o["connects"] != 1:
+            v.append((f"the link was dropped and re-dialled ({o['connects']} connects) after a well-formed reply with an opaque payload", j))
+    want = {"altered": body.hex()} if c0["valid"] else "invalid"
+    if o0["result"] != want:
+        v.append((f"reply valid={c0['valid']} with a {len(body)}-byte payload was mapped to {str(o0['result'])[:60]}", 0))
+    if ob["calls"][1]["result"] != "ok":
+        v.append((f"the call that followed on the same link failed: {ob['calls'][1]['result']}", 1))
+    return v
